@@ -1792,11 +1792,13 @@ func (w *transformingWriter) Write(data []byte) (n int, err error) {
 			if err != nil {
 				err = malformedRequestError(err)
 				w.rw.reportError(err)
+				w.err = err // the stream cannot be resumed after a bad envelope
 				return written, err
 			}
 			if limit := w.rw.op.methodConf.maxMsgBufferBytes; w.latestEnvelope.length > limit {
 				err = bufferLimitError(int64(limit))
 				w.rw.reportError(err)
+				w.err = err
 				return written, err
 			}
 			w.buffer = w.msg.reset(w.rw.op.bufferPool, false, w.latestEnvelope.compressed)
@@ -1806,6 +1808,9 @@ func (w *transformingWriter) Write(data []byte) (n int, err error) {
 		} else {
 			if err := w.flushMessage(); err != nil {
 				w.rw.reportError(err)
+				// The message's buffers are in an intermediate state now: a later call
+				// (e.g. the final empty write on close) must not resume from them.
+				w.err = err
 				return written, err
 			}
 			if w.latestEnvelope.trailer && len(data) == 0 {
